@@ -136,6 +136,13 @@ Theorem C13_code_shape :
 Proof. exact code_shape. Qed.
 Print Assumptions C13_code_shape.
 
+(* the values-only iterators (iter_window, iter_window_array) pass EVERY keyword parameter on to the items
+   generator, and that one to axis_window_items (lists REGENERATED from frame.py / series.py): dropping one
+   (e.g. label_shift, which also decides which anchors are valid) breaks this *)
+Theorem C13_window_keywords_forwarded : window_forwarding_ok = true.
+Proof. exact window_forwarding. Qed.
+Print Assumptions C13_window_keywords_forwarded.
+
 (* --- windows --- *)
 (* the loop of axis_window_items, with its index arithmetic REGENERATED from the source, equals the
    anchor enumeration for every parameter tuple (accepted or rejected), and so never needs more
